@@ -2,6 +2,7 @@ import PyttbModel.Core.Codec
 import PyttbModel.Driver.C01
 import PyttbModel.Core.XRat
 import PyttbModel.Ops.SparseElem
+import PyttbModel.Ops.SparseElemKruskal
 import PyttbModel.Ops.SparseSquash
 import PyttbModel.Ops.Kruskal
 open Lean Pyttb Pyttb.Codec Pyttb.SpElem
@@ -37,6 +38,11 @@ def rhsX : ERhs Rat → ERhs XRat
   | .scalar c => .scalar (.fin c)
   | .sparse B => .sparse (toX B)
   | .dense D => .dense (toXD D)
+
+def asTtensorC03 (j : Json) : R (Ttensor Rat) := do
+  let c ← field j "core" >>= asDense
+  let f ← field j "factors" >>= asList asRatMat
+  .ok ⟨c, f⟩
 
 def spOrDenseJ : SpOrDense Rat → Json
   | .sp S => Json.mkObj [("sp", sparseJ S)]
@@ -99,6 +105,28 @@ def ops03 : List (String × Op) := [
     let A ← field j "A" >>= asSparse
     let K ← field j "K" >>= asKtensor
     .ok (exceptJ spJ (SpElem.mulK A K))),
+  ("sp_divk", fun j => do
+    let A ← field j "A" >>= asSparse
+    let K ← field j "K" >>= asKtensor
+    .ok (exceptJ (fun S => Json.mkObj [("sp", sparseXJ S)]) (SpElem.divK (.fin floatEps) (toX A) K.toX))),
+  ("sp_krefl", fun j => do
+    let name ← field j "name" >>= asStr
+    let A ← field j "A" >>= asSparse
+    let K ← field j "K" >>= asKtensor
+    match name with
+    | "kmul" => .ok (exceptJ spJ (SpElem.kmul K A))
+    | "rdivk" => .ok (exceptJ spJ (SpElem.rdivK K A))
+    | _ => .error s!"unknown reflected Kruskal operation {name}"),
+  ("sp_tucker", fun j => do
+    let name ← field j "name" >>= asStr
+    let A ← field j "A" >>= asSparse
+    let T ← field j "T" >>= asTtensorC03
+    match name with
+    | "mult" => .ok (exceptJ spJ (SpElem.mulT A T))
+    | "divt" => .ok (exceptJ spJ (SpElem.divT A T))
+    | "tmul" => .ok (exceptJ spJ (SpElem.tmul T A))
+    | "rdivt" => .ok (exceptJ spJ (SpElem.rdivT T A))
+    | _ => .error s!"unknown Tucker operation {name}"),
   ("sp_extract", fun j => do
     let A ← field j "A" >>= asSparse
     let q ← field j "q" >>= asNatMat
